@@ -370,10 +370,13 @@ func (g *GcsEmu) handleGcsUpdateMetadataRequest(ctx context.Context, baseUrl Htt
 
 		// Update via json decode.
 		metagen := obj.Metageneration
+		generation, md5Hash, timeCreated := obj.Generation, obj.Md5Hash, obj.TimeCreated
 		err = json.NewDecoder(r.Body).Decode(&obj)
 		if err != nil {
 			return fmtErrorfCode(http.StatusBadRequest, "failed to parse request: %w", err)
 		}
+		// A patch cannot change what is derived from the content.
+		obj.Generation, obj.Md5Hash, obj.TimeCreated = generation, md5Hash, timeCreated
 
 		if err := g.store.UpdateMeta(bucket, filename, obj, metagen+1); err != nil {
 			return fmt.Errorf("failed to update attrs of %s/%s: %w", bucket, filename, err)
